@@ -50,6 +50,19 @@ pub struct Link {
 impl Component for Link {
     type Storage = VecStorage<Self>;
 }
+/// Only used in *unrelated* worlds: its destructor panics while armed.
+pub struct Boom(pub bool);
+impl Component for Boom {
+    type Storage = VecStorage<Self>;
+}
+impl Drop for Boom {
+    fn drop(&mut self) {
+        if self.0 && !std::thread::panicking() {
+            self.0 = false;
+            panic!("verif: injected destructor panic in an unrelated world");
+        }
+    }
+}
 pub struct Net;
 type M = SimpleMarker<Net>;
 
@@ -71,6 +84,7 @@ fn new_world() -> W {
     world.register::<B>();
     world.register::<F>();
     world.register::<Link>();
+    world.register::<Boom>();
     world.register::<M>();
     world.insert(SimpleMarkerAllocator::<Net>::new());
     let reader = world.write_storage::<F>().register_reader();
@@ -313,6 +327,27 @@ fn step(w: &mut W, code: usize, a: u64, b: u64, c: u64) {
             w.recursive_serialisations += 1;
             w.out.push(format!("serialize_recursive -> {}", text));
         }
+        17 => {
+            // a marker copied in from elsewhere: inserted directly, bypassing the allocator
+            if let Some(e) = pick(w, a) {
+                let id = 20 + (b % 60);
+                let m: M = serde_json::from_str(&format!("[{}]", id)).expect("marker literal");
+                let r = w.world.write_storage::<M>().insert(e, m).map(|o| o.map(|m| format!("{:?}", m))).map_err(|_| ());
+                w.out.push(format!("insert_foreign_marker({:?}, {}) -> {:?}", e, id, r));
+            }
+        }
+        18 => {
+            use specs::saveload::MarkerAllocator;
+            let ents = w.world.entities();
+            let ms = w.world.read_storage::<M>();
+            let mut alloc = w.world.write_resource::<SimpleMarkerAllocator<Net>>();
+            alloc.maintain(&ents, &ms);
+            w.out.push("allocator.maintain".into());
+        }
+        19 => {
+            w.world.delete_all();
+            w.out.push("delete_all".into());
+        }
         _ => {
             if let Some(e) = pick(w, a) {
                 let ents = w.world.entities();
@@ -326,7 +361,7 @@ fn step(w: &mut W, code: usize, a: u64, b: u64, c: u64) {
 fn gen_history(rng: &mut Rng, n: usize) -> Vec<(usize, u64, u64, u64)> {
     (0..n)
         .map(|_| {
-            let code = rng.weighted(&[16, 8, 6, 8, 5, 4, 7, 10, 5, 7, 6, 4, 5, 3, 4, 9, 4]);
+            let code = rng.weighted(&[16, 8, 6, 8, 5, 4, 7, 10, 5, 7, 6, 6, 5, 3, 4, 9, 4, 4, 3, 1]);
             (code, rng.next() % 1000, rng.next() % 1000, rng.next() % 1000)
         })
         .collect()
@@ -355,6 +390,23 @@ fn trunc(s: &str) -> String {
 /// Mutate unrelated worlds: a history-independent disturbance.
 fn disturb(x: &mut W, seed: u64) {
     let mut r = Rng(seed);
+    if r.chance(1, 6) {
+        // an unrelated world whose delete_all / maintain unwinds out of a panicking destructor (caught)
+        for _ in 0..(r.below(3) + 1) {
+            x.world.create_entity().with(Boom(true)).with(H(1)).build();
+        }
+        let w = &mut x.world;
+        let _ = std::panic::catch_unwind(std::panic::AssertUnwindSafe(|| w.delete_all()));
+        // disarm whatever is left so that later drops are quiet
+        {
+            // (also the orphans of entities that are already dead)
+            let mut b = x.world.write_storage::<Boom>();
+            for boom in (&mut b).join() {
+                boom.0 = false;
+            }
+        }
+        x.handles.clear();
+    }
     for _ in 0..(r.below(6) + 1) {
         let c = r.below(10);
         step(x, c, r.next() % 1000, r.next() % 1000, r.next() % 1000);
